@@ -104,25 +104,32 @@ func JSONGetNaturalLanguageField(val *fastjson.Value, prop string) NaturalLangua
 		return n
 	}
 	v := val.Get(prop)
-	if v == nil {
+	// NOTE(marius): multiple language values are written under the <prop>Map term
+	vMap := val.Get(prop + "Map")
+	if v == nil && vMap == nil {
 		return nil
 	}
-	switch v.Type() {
-	case fastjson.TypeObject:
-		ob, _ := v.Object()
-		ob.Visit(func(key []byte, v *fastjson.Value) {
-			l := LangRefValue{}
-			l.Ref = LangRef(key)
-			if err := l.Value.UnmarshalJSON(v.GetStringBytes()); err == nil {
-				if l.Ref != NilLangRef || len(l.Value) > 0 {
-					n = append(n, l)
+	for _, v := range []*fastjson.Value{v, vMap} {
+		if v == nil {
+			continue
+		}
+		switch v.Type() {
+		case fastjson.TypeObject:
+			ob, _ := v.Object()
+			ob.Visit(func(key []byte, v *fastjson.Value) {
+				l := LangRefValue{}
+				l.Ref = LangRef(key)
+				if err := l.Value.UnmarshalJSON(v.GetStringBytes()); err == nil {
+					if l.Ref != NilLangRef || len(l.Value) > 0 {
+						n = append(n, l)
+					}
 				}
+			})
+		case fastjson.TypeString:
+			l := LangRefValue{}
+			if err := l.UnmarshalJSON(v.GetStringBytes()); err == nil {
+				n = append(n, l)
 			}
-		})
-	case fastjson.TypeString:
-		l := LangRefValue{}
-		if err := l.UnmarshalJSON(v.GetStringBytes()); err == nil {
-			n = append(n, l)
 		}
 	}
 
